@@ -166,8 +166,23 @@ func (c CertificateContent) HashSum() []byte {
 	c.Profile = ""
 	c.Alias = ""
 
+	//the kind of an extension is not part of its json representation, so
+	//it is hashed next to it: two extensions of a different kind must never
+	//look the same, even if their content does
+	type hashedExtension struct {
+		Oid    string
+		Config ExtensionConfig
+	}
+	hashed := struct {
+		CertificateContent
+		Extensions []hashedExtension
+	}{CertificateContent: c, Extensions: make([]hashedExtension, len(c.Extensions))}
+	for i, ext := range c.Extensions {
+		hashed.Extensions[i] = hashedExtension{Oid: ext.Oid().String(), Config: ext}
+	}
+
 	//marshal c to json
-	b, err := json.Marshal(c)
+	b, err := json.Marshal(hashed)
 	if err != nil {
 		panic("can't marshal struct to json")
 	}
